@@ -351,6 +351,18 @@ func init() {
 						}
 					}
 				}
+				// a component that is blank on the wire is not assigned by the parser: unpacked into a used object it must read
+				// as absent, not as what the object held before
+				{
+					c4 := genTrackComps(r, k, true)
+					c4.dd = strings.Repeat(" ", 1+r.Intn(3))
+					f4 := trackField(k, p)
+					setComps(f4, c4)
+					if packed4, err := f4.Pack(); err == nil {
+						emit(L(A("trk"), I(k), p, L(c.op(), op("unpack", X(packed4)), op("get"), op("pack"), op("str"))))
+						emit(L(A("trk"), I(k), p, L(op("unpack", X(packed4)), op("get"), op("pack"))))
+					}
+				}
 				if packer == "T2" {
 					// discretionary data made of the pad character only: the field's own unpadding eats it, the packed
 					// value no longer parses as a track, and the Describe filter has nothing to take apart (F31)
